@@ -188,8 +188,13 @@ class Capture:
         self.buf.append(data)
         return len(data)
 
+    fail_flush = False  # the next flush() raises EAGAIN (what was written so far has reached the terminal)
+
     def flush(self):
         self.flushes += 1
+        if self.fail_flush:
+            self.fail_flush = False
+            raise BlockingIOError(11, "Resource temporarily unavailable")
 
     def take(self):
         d = "".join(self.buf)
@@ -332,7 +337,7 @@ def widget_spec(styles=("kitty", "kitty", "kitty", "iterm2", "iterm2", "block"))
 
 OP_WEIGHTS = {"set": 2, "swap": 4, "insert": 3, "remove": 3, "resize": 4, "scroll": 3, "cover": 3, "move_cover": 2,
               "uncover": 2, "retarget": 2, "noop": 1, "new_widget": 2, "drop_widget": 2, "gc": 1, "clear": 1,
-              "restart": 1, "bad_draw": 1}
+              "restart": 1, "bad_draw": 1, "failed_draw": 4}
 
 
 @st.composite
@@ -559,6 +564,7 @@ class Lab:
         self.diag = {}
         self.dis_mark = self.gl_mark = None
         self.top = self.top_key = None
+        self.only_images = False
 
     # ---------------------------------------------------------------------------------- helpers
     def new_screen(self, out):
@@ -624,7 +630,7 @@ class Lab:
                 self.fail(f"start() of a started screen wrote {data[:40]!r}", {"kind": "start_twice"})
             return
         self.no_placements(what)
-        self.allow_missing = self.cleared_explicitly = False  # full repaint follows
+        self.allow_missing = self.cleared_explicitly = self.only_images = False  # full repaint follows
 
     def stop(self, what="stop()"):
         was_started = self.started
@@ -684,7 +690,7 @@ class Lab:
                     self.fail(f"clear() raised {type(e).__name__}: {e}", {"kind": "exception", "where": "clear", "exc": type(e).__name__})
                 self.pump()
                 self.no_placements("clear()")
-                self.allow_missing = self.cleared_explicitly = False  # full repaint follows
+                self.allow_missing = self.cleared_explicitly = self.only_images = False  # full repaint follows
         elif k == "restart":
             self.trace.append(k)
             if self.started:
@@ -727,6 +733,8 @@ class Lab:
             self.cleared_explicitly = True
         elif k == "bad_draw":
             self.bad_draw()
+        elif k == "failed_draw":
+            self.failed_draw()
         else:
             raise HarnessError(f"unknown op {k}")
 
@@ -783,6 +791,34 @@ class Lab:
         # histories; what is on the terminal afterwards is only judged for left-over images until the next
         # full repaint
         self.allow_missing = True
+
+    def failed_draw(self):
+        """A redraw whose output reaches the terminal but whose flush fails (EAGAIN on a non-blocking terminal: urwid only
+        swallows EINTR).  The program carries on and redraws; until the next full repaint urwid itself may leave rows of the
+        failed frame in place (its own screen buffer is not updated), so only left-over / stacked *images* are judged."""
+        if not self.started:
+            return
+        canvas = self.render()
+        if canvas is None or canvas is self.last_canvas:
+            return
+        self.trace.append("failed_draw")
+        self.out.fail_flush = True
+        try:
+            self.screen.draw_screen(self.size, canvas)
+        except BlockingIOError:
+            self.flags.add("failed_draw")
+        except Exception as e:
+            self.out.fail_flush = False
+            self.pump()
+            self.fail(f"draw_screen() raised {type(e).__name__}: {e}", {"kind": "exception", "where": "failed_draw", "exc": type(e).__name__})
+        self.out.fail_flush = False
+        self.pump()
+        if self.vt.sync_depth:
+            self.fail("a draw_screen() whose flush failed left the synchronized update open", {"kind": "sync", "where": "failed_draw"})
+        if not self.vt.in_ground():
+            self.fail(f"a draw_screen() whose flush failed left the parser in state {self.vt.parser_state()}", {"kind": "parser", "after": "failed_draw"})
+        self.allow_missing = self.only_images = True
+        self.last_canvas = canvas
 
     # ---------------------------------------------------------------------------------- the redraw
     def redraw(self):
@@ -921,6 +957,12 @@ class Lab:
             if kind == "missing" and self.missing_ok():
                 self.flags.add("missing_after_explicit_clear")
                 return
+            if self.only_images and missing:
+                # after a redraw whose write failed: missing images are urwid's doing (see failed_draw); left-over ones are not
+                missing = []
+                kind = "ghost" if ghost else "stacked"
+                if not ghost and not dup:
+                    return
             c = (ghost or missing or dup)[0]
             protos = sorted({e[1] for e in g1.get(c, ()) + g2.get(c, ())})
 
@@ -932,6 +974,8 @@ class Lab:
                       f"cell(s) with stacked duplicates; e.g. cell {c}: terminal {show(g1.get(c, ()))} vs expected "
                       f"{show(g2.get(c, ()))}\n  terminal rows: {[vt.text_row(y) for y in range(vt.rows)]}",
                       dict(self.diag, kind=kind, proto="+".join(protos), composite=composite))
+        if self.only_images:
+            return
         for y in range(vt.rows):
             r1, r2 = vt.grid[y], vt2.grid[y]
             for x in range(vt.cols):
